@@ -397,7 +397,22 @@ def main(rep, ws, tier):
                             back = ctx.radd((P.pmul(A, P.psub(P.psub(Bb, A), P.psub(M_, A))), P.psub(Bb, A)), ctx.rmul((Bb, P.pconst(1)), r))
                             if not ctx.requal(back, (M_, P.pconst(1))):
                                 bad = 'lerp(a, b, lerpfactor(m, a, b)) = %s, expected m' % P.show_rat(back, ctx)
-                    rep.ob(oid, 'R17.poly', VIOLATED if bad else HOLDS, bad or 'n/d = (m-a)/(b-a) inverts lerp; the guarded exit returns 0', where)
+                    if not bad:
+                        # the quotient is formed only where it cannot overflow: |d| > 1 or |n| < max*|d| (magnitudes on both sides)
+                        q = quo[0]; nn, dd = q.args
+                        def is_abs(x, y): return x.op in ('absi', 'call') and x.args and (x.args[0] is y or (x.args[0].op == 'fneg' and x.args[0].args[0] is y))
+                        for lits, leaf in lv:
+                            if leaf is not q: continue
+                            ok = False
+                            for c, v in lits:
+                                if c.op != 'fcmp' or c.attr not in ('olt', 'ole'): continue
+                                l_, r_ = c.args
+                                if v is True and c.attr == 'olt' and l_.op == 'const' and T.const_value(l_) == 1 and is_abs(r_, dd): ok = True          # 1 < |d|
+                                if v is False and c.attr == 'ole' and r_.op == 'const' and T.const_value(r_) == 1 and is_abs(l_, dd): ok = True       # !(|d| <= 1)
+                                if v is True and c.attr == 'olt' and is_abs(l_, nn) and r_.op == 'fmul' and any(is_abs(z, dd) for z in r_.args) and any(z.op == 'const' for z in r_.args): ok = True
+                            if not ok:
+                                bad = 'the quotient n/d is formed on a path guarded only by %s: neither |d| > 1 nor |n| < max*|d| (with magnitudes on both sides) holds there, so it can overflow instead of returning 0' % ', '.join('%s=%s' % (T.show(c, 3)[:60], v) for c, v in lits)
+                    rep.ob(oid, 'R17.poly', VIOLATED if bad else HOLDS, bad or 'n/d = (m-a)/(b-a) inverts lerp, formed only where |d| > 1 or |n| < max*|d|; the guarded exit returns 0', where)
                 elif k in ('floor', 'ceil', 'trunc'):
                     check_floor(rep, oid, S, k, t, where)
                 elif k in ('divs', 'mods', 'divp', 'modp'):
